@@ -46,6 +46,14 @@ def r1_guard(ck, F, d):
     anchor, flag, step = NEXT[d]
     b = F.body(A(anchor))
     sw = [c for c in byte_comparisons(b) if c["op"] == "starts_with"]
+    if not sw and not byte_comparisons(b):
+        # equivalent idiom: Ok(entry.filter(|(key, _)| key.starts_with(prefix)))
+        if _filter_idiom(ck, R, F, b, d, anchor):
+            for s, n, t in cursor_calls(b):
+                _q(ck, R, b, s, f"{d}/{n}")
+            for s, c_, t in calls(b, A("last_prefix")):
+                _q(ck, R, b, s, f"{d}/move_on_last_prefix")
+            return
     ck.exact(R, f"starts_with tests in {anchor}", len(sw), 1, F.config)
     ck.exact(R, f"key comparisons in {anchor}", len(byte_comparisons(b)), 1, F.config)
     if len(sw) != 1:
@@ -68,6 +76,8 @@ def r1_guard(ck, F, d):
             somes.append((alt, x))
         elif x is not None and x.k == "agg" and x.x.get("variant") == "None":
             pass
+        elif alt.k == "agg" and alt.x.get("variant") == "Err":
+            pass  # an explicit error exit carries no entry
         else:
             other.append(alt.show()[:90])
     ck.exact(R, f"Ok(Some(..)) exits of {anchor}", len(somes), 1, F.config)
@@ -85,12 +95,43 @@ def r1_guard(ck, F, d):
         _q(ck, R, b, s, f"{d}/move_on_last_prefix")
 
 
+def _filter_idiom(ck, R, F, b, d, anchor):
+    """Ok(entry.filter(pred)) with pred = |(key, _)| key.starts_with(<self.prefix>)"""
+    alts = [a for a in return_alts(b) if not is_err_path(a) and not (a.k == "agg" and a.x.get("variant") == "Err")]
+    if len(alts) != 1:
+        return False
+    a = alts[0]
+    x = a.a[0] if (a.k == "agg" and a.x.get("variant") == "Ok") else None
+    if x is None or not (x.k == "call" and x.x["path"].endswith("Option::<T>::filter")):
+        return False
+    clo = x.a[1].strip()
+    if not (clo.k == "agg" and clo.x.get("ak") == "closure"):
+        return False
+    cb = F.by_path.get(clo.x.get("closure"), [])
+    if len(cb) != 1:
+        return False
+    cmps = byte_comparisons(cb[0])
+    ok_one = len(cmps) == 1 and cmps[0]["op"] == "starts_with"
+    ck.ob(R, f"filter-predicate/{d}", ok_one, f"{anchor} yields entry.filter(pred): pred contains exactly one comparison, a starts_with", cb[0])
+    if not ok_one:
+        return True
+    c = cmps[0]
+    key = c["a"].strip()
+    ok_key = key.k == "field" and key.x["idx"] == 0 and key.a[0].strip().k == "arg" and key.a[0].strip().x["i"] == 2
+    cap = c["b"].strip()
+    ok_cap = cap.k == "field" and cap.a[0].strip().k == "arg" and cap.a[0].strip().x["i"] == 1
+    ck.ob(R, f"tests-entry-key/{d}", ok_key, "the predicate applies starts_with to the key part of the candidate entry", cb[0], c["site"])
+    ok_pref = ok_cap and len(clo.a) >= 1 and any(is_self_field(o, "prefix") for o in clo.a)
+    ck.ob(R, f"tests-own-prefix/{d}", ok_pref, "... against the captured self.prefix", cb[0], c["site"])
+    r = cb[0].expr_at_return()
+    ck.ob(R, f"yield-guarded/{d}", r.strip().k == "call" and r.strip().x.get("site") == c["site"], "the predicate's verdict is the starts_with result (Option::filter keeps the entry iff it is true)", cb[0])
+    ck.ob(R, f"no-unguarded-exit/{d}", True, "the only success exit is Ok(entry.filter(pred))", b, nontrivial=False)
+    return True
+
+
 def _q(ck, R, b, s, tag):
-    dest = b.at(s)["dest"]
-    brs = [x for x, c, t in calls(b, "Try>::branch") if b.arg_exprs(x)[0].k == "call" and b.arg_exprs(x)[0].x.get("site") == s]
-    errs = [x for x, k, p in err_return_sites(b)]
-    ok = len(brs) == 1 and any(b.dominates(brs[0], e) for e in errs)
-    ck.ob(R, f"error-propagated/{tag}", ok, "the cursor's Result goes through `?` (an I/O error is returned, not folded into end-of-iteration)", b, s)
+    from .errflow import propagated
+    ck.ob(R, f"error-propagated/{tag}", propagated(b.facts, b, s), "the cursor's Result is propagated (`?` or an equivalent match): an I/O error is returned, not folded into end-of-iteration", b, s)
 
 
 def r2_start(ck, F):
